@@ -181,10 +181,12 @@ struct Scenario {
     one_pass: bool,
     /// an idle server round (T 0) after every arrival tick
     gaps: bool,
+    /// right after the window change a second, unfiltered stream with window [1,3) is created on the same connection
+    second: bool,
 }
 fn scen_json(s: &Scenario) -> Value {
     json!({"family": "server", "fset": s.fset, "window": s.window, "is_stream": s.is_stream, "binary": s.binary, "ticks": s.ticks,
-        "change": s.change.map(|(k, (a, b))| json!([k, a, b])), "search": s.search.map(|(a, b, c)| json!([a, b, c])), "lookup": s.lookup.map(|(a, b)| json!([a, b])), "sorted": s.sorted, "one_pass": s.one_pass, "gaps": s.gaps})
+        "change": s.change.map(|(k, (a, b))| json!([k, a, b])), "search": s.search.map(|(a, b, c)| json!([a, b, c])), "lookup": s.lookup.map(|(a, b)| json!([a, b])), "sorted": s.sorted, "one_pass": s.one_pass, "gaps": s.gaps, "second_stream": s.second})
 }
 fn scen_from_json(v: &Value) -> Scenario {
     let u = |x: &Value| x.as_u64().unwrap() as usize;
@@ -200,11 +202,12 @@ fn scen_from_json(v: &Value) -> Scenario {
         sorted: v["sorted"].as_bool().unwrap_or(false),
         one_pass: v["one_pass"].as_bool().unwrap_or(false),
         gaps: v["gaps"].as_bool().unwrap_or(false),
+        second: v["second_stream"].as_bool().unwrap_or(false),
     }
 }
 
 /// collected stream data frames of one step: (stream id, position-or-none, message fields)
-fn collect_frames(frames: &[Value]) -> Vec<(u64, Value)> {
+pub fn collect_frames(frames: &[Value]) -> Vec<(u64, Value)> {
     let mut out = vec![];
     for f in frames {
         if f["b"] == "DltMsgs" {
@@ -311,9 +314,15 @@ fn run_scenario(d: &mut Driver, file: &str, log: &[LogMsg], s: &Scenario) -> Res
     let mut got: Vec<Value> = vec![]; // data for the current id
     let mut ended = false;
     let mut tick_no = 0usize;
-    let mut handle = |frames: &[Value], id: u64, announced: &[u64], got: &mut Vec<Value>, ended: &mut bool, viol: &mut Vec<(String, String, String)>| {
+    let mut id2: Option<u64> = None;
+    let mut got2: Vec<Value> = vec![];
+    let mut handle = |frames: &[Value], id: u64, id2: Option<u64>, got2: &mut Vec<Value>, announced: &[u64], got: &mut Vec<Value>, ended: &mut bool, viol: &mut Vec<(String, String, String)>| {
         for (fid, m) in collect_frames(frames) {
-            if !announced.contains(&fid) {
+            if Some(fid) == id2 && fid != id {
+                if m != json!("END") {
+                    got2.push(m);
+                }
+            } else if !announced.contains(&fid) {
                 viol.push(("frame_before_announce".into(), "".into(), format!("frame for id {fid} which was never announced ({announced:?})")));
             } else if fid != id {
                 viol.push(("frame_for_old_id".into(), "".into(), format!("frame for superseded id {fid} (current {id})")));
@@ -364,7 +373,7 @@ fn run_scenario(d: &mut Driver, file: &str, log: &[LogMsg], s: &Scenario) -> Res
     };
     for t in &ticks {
         let r = step(d, t, &mut viol)?;
-        handle(r["frames"].as_array().map(|a| a.as_slice()).unwrap_or(&[]), id, &announced, &mut got, &mut ended, &mut viol);
+        handle(r["frames"].as_array().map(|a| a.as_slice()).unwrap_or(&[]), id, id2, &mut got2, &announced, &mut got, &mut ended, &mut viol);
         tick_no += 1;
         if let Some((k, (a, b))) = s.change {
             if k == tick_no && !ended {
@@ -382,6 +391,21 @@ fn run_scenario(d: &mut Driver, file: &str, log: &[LogMsg], s: &Scenario) -> Res
                 } else if s.is_stream {
                     viol.push(("change_window_rejected".into(), "".into(), reply));
                 }
+                if s.second {
+                    let r = step(d, r#"C stream {"window":[1,3],"binary":true,"filters":[]}"#, &mut viol)?;
+                    let reply = r["frames"][0]["t"].as_str().unwrap_or("").to_string();
+                    if reply.starts_with("ok:") {
+                        let nid: u64 = reply.split("\"id\":").nth(1).and_then(|x| x.trim_start().chars().take_while(|c| c.is_ascii_digit()).collect::<String>().parse().ok()).unwrap_or(0);
+                        if announced.contains(&nid) {
+                            viol.push(("id_not_fresh".into(), "second_stream".into(), format!("a second stream created after the window change was announced with id {nid}, which is in use (ids announced so far {announced:?})")));
+                        }
+                        id2 = Some(nid);
+                        // frames in the same step as the announcement
+                        handle(r["frames"].as_array().map(|a| a.as_slice()).unwrap_or(&[]), id, id2, &mut got2, &announced, &mut got, &mut ended, &mut viol);
+                    } else {
+                        viol.push(("stream_rejected".into(), "second_stream".into(), reply));
+                    }
+                }
             }
         }
     }
@@ -391,6 +415,16 @@ fn run_scenario(d: &mut Driver, file: &str, log: &[LogMsg], s: &Scenario) -> Res
     verify_window(&got, cur_window, if s.change.is_some() { "after_window_change" } else { "initial_window" }, &mut viol);
     if !s.is_stream && !ended {
         viol.push(("query_never_ended".into(), "".into(), "no end-of-query marker".into()));
+    }
+    if let Some(i2) = id2 {
+        if i2 != id {
+            let want: Vec<&LogMsg> = log[1..3.min(log.len())].iter().collect();
+            if got2.len() != want.len() {
+                viol.push(("window_content".into(), "second_stream".into(), format!("{} messages delivered under the second stream's id {i2} for window [1,3) of the unfiltered log: expected {}", got2.len(), want.len())));
+            } else if let Some(e) = got2.iter().zip(want.iter()).find_map(|(g, w)| check_msg(g, w, true)) {
+                viol.push(("window_content".into(), "second_stream".into(), e));
+            }
+        }
     }
     // ---- search paging (streams only; queries are gone once done)
     if let Some((page, start, gset)) = s.search {
@@ -475,7 +509,7 @@ fn scenarios(tier: Tier) -> Vec<Scenario> {
                         if !thorough && ((binary && c.len() > 3) || (!binary && c.len() != 1 && c.len() != NLOG)) {
                             continue;
                         }
-                        v1.push(Scenario { fset, window, is_stream, binary, ticks: c.clone(), change: None, search: None, lookup: None, sorted: false, one_pass: false, gaps: false });
+                        v1.push(Scenario { fset, window, is_stream, binary, ticks: c.clone(), change: None, search: None, lookup: None, sorted: false, one_pass: false, gaps: false, second: false });
                     }
                 }
             }
@@ -491,7 +525,7 @@ fn scenarios(tier: Tier) -> Vec<Scenario> {
                         if !thorough && !gaps && c.len() > 1 {
                             continue;
                         }
-                        v.push(Scenario { fset, window, is_stream, binary: true, ticks: c.clone(), change: None, search: None, lookup: None, sorted: false, one_pass: true, gaps });
+                        v.push(Scenario { fset, window, is_stream, binary: true, ticks: c.clone(), change: None, search: None, lookup: None, sorted: false, one_pass: true, gaps, second: false });
                     }
                 }
             }
@@ -504,8 +538,20 @@ fn scenarios(tier: Tier) -> Vec<Scenario> {
                 for c in comps.iter().filter(|c| thorough || c.len() <= 2) {
                     for k in 1..=c.len() + 1 {
                         for nw in [(0usize, 2usize), (1, 4), (3, 20)] {
-                            v.push(Scenario { fset, window, is_stream, binary: true, ticks: c.clone(), change: Some((k, nw)), search: None, lookup: None, sorted: false, one_pass: false, gaps: false });
+                            v.push(Scenario { fset, window, is_stream, binary: true, ticks: c.clone(), change: Some((k, nw)), search: None, lookup: None, sorted: false, one_pass: false, gaps: false, second: false });
                         }
+                    }
+                }
+            }
+        }
+    }
+    // (2b) a second stream created right after the window change (both streams alive on one connection)
+    for fset in [0usize, 1] {
+        for is_stream in [true, false] {
+            for c in comps.iter().filter(|c| thorough || c.len() <= 2) {
+                for k in 1..=c.len() + 1 {
+                    for nw in [(1usize, 4usize), (3, 20)] {
+                        v.push(Scenario { fset, window: 0, is_stream, binary: true, ticks: c.clone(), change: Some((k, nw)), search: None, lookup: None, sorted: false, one_pass: false, gaps: false, second: true });
                     }
                 }
             }
@@ -516,7 +562,7 @@ fn scenarios(tier: Tier) -> Vec<Scenario> {
         for gset in 0..nf {
             for page in [1usize, 2, NLOG] {
                 for start in 0..=2 {
-                    v.push(Scenario { fset, window: 4, is_stream: true, binary: true, ticks: vec![NLOG], change: None, search: Some((page, start, gset)), lookup: None, sorted: false, one_pass: false, gaps: false });
+                    v.push(Scenario { fset, window: 4, is_stream: true, binary: true, ticks: vec![NLOG], change: None, search: Some((page, start, gset)), lookup: None, sorted: false, one_pass: false, gaps: false, second: false });
                 }
             }
         }
@@ -526,7 +572,7 @@ fn scenarios(tier: Tier) -> Vec<Scenario> {
         for target in 0..NLOG {
             for by_index in [true, false] {
                 for sorted in [false, true] {
-                    v.push(Scenario { fset, window: 4, is_stream: true, binary: true, ticks: vec![NLOG], change: None, search: None, lookup: Some((by_index, target)), sorted, one_pass: false, gaps: false });
+                    v.push(Scenario { fset, window: 4, is_stream: true, binary: true, ticks: vec![NLOG], change: None, search: None, lookup: Some((by_index, target)), sorted, one_pass: false, gaps: false, second: false });
                 }
             }
         }
@@ -540,7 +586,7 @@ impl Prop for C16 {
         Meta {
             id: "C16",
             level: "model_checking",
-            rule: "(A) library: for every log of N <= 6 (thorough 8) messages with every match pattern (2^N) x stream/query x window end 0..N+1 x max_chunk_size {1,2,3,inf} x every composition of N into arrival batches (x one window extension after every tick for queries) the real process_stream_new_msgs is called the way the server loop calls it; after every tick filtered_msgs must be strictly increasing and equal the matching positions below the progress marker (queries: the first 'window end' of them, marker never beyond an uncollected match), and complete after the final batch plus idle ticks. (B) server, through the cfg(adlt_verif) driver on the real handlers: 7 filter sets (incl. one with two event filters) x 5 windows x stream/query x binary/text x every composition of the 6-message log into arrival ticks; the same for one-pass sessions (collect = one_pass_streams, resume) with an idle server round after every tick; one window change after every tick x 3 new windows; search paging (7 stream filters x 7 search filters x page sizes {1,2,N} x start 0..2, following next_search_idx); index and time lookups for every message, sorted and unsorted. Oracle: frames for the announced id are exactly positions [start,end) of the filtered log with the file's index/times/ids/counters/payload text, none for unannounced or superseded ids, end-of-query marker last, new id after a window change gets exactly the new window, union of search pages = matching stream positions without duplicates, lookups answered ok: return the first stream position not before the request.".into(),
+            rule: "(A) library: for every log of N <= 6 (thorough 8) messages with every match pattern (2^N) x stream/query x window end 0..N+1 x max_chunk_size {1,2,3,inf} x every composition of N into arrival batches (x one window extension after every tick for queries) the real process_stream_new_msgs is called the way the server loop calls it; after every tick filtered_msgs must be strictly increasing and equal the matching positions below the progress marker (queries: the first 'window end' of them, marker never beyond an uncollected match), and complete after the final batch plus idle ticks. (B) server, through the cfg(adlt_verif) driver on the real handlers: 7 filter sets (incl. one with two event filters) x 5 windows x stream/query x binary/text x every composition of the 6-message log into arrival ticks; the same for one-pass sessions (collect = one_pass_streams, resume) with an idle server round after every tick; one window change after every tick x 3 new windows, also followed at once by the creation of a second stream on the same connection (its id must be fresh and each stream gets exactly its own window); search paging (7 stream filters x 7 search filters x page sizes {1,2,N} x start 0..2, following next_search_idx); index and time lookups for every message, sorted and unsorted. Oracle: frames for the announced id are exactly positions [start,end) of the filtered log with the file's index/times/ids/counters/payload text, none for unannounced or superseded ids, end-of-query marker last, new id after a window change gets exactly the new window, union of search pages = matching stream positions without duplicates, lookups answered ok: return the first stream position not before the request.".into(),
             assumptions: vec!["server level uses one generated 6-message log (two ECUs, one lifecycle each)".into(), "message-arrival batching is modelled by explicit ticks of the driver (receive budget)".into()],
             budget_s: (150, 1500),
             workers: 1,
